@@ -5,7 +5,7 @@ Driver for `Model/Pipeline.lean` (C09).  One execution is sent as
 
   begin
   put <digest> <buf> w=<code> <fm> <p>* one per Put of the inner executor
-  inner <st> <exit> <files> <dirs> <stdout> <stderr> <logs>
+  inner <st> <exit> <files> <dirs> <stdout> <stderr> <logs>   (<st>: - unset | ok | okm | error code)
   flush w=<code> <fm> <p>*              the flusher call of the flushing executor
   finish <dv> <ap> <dnc> <action> <call>
 
@@ -150,7 +150,7 @@ def showStore (s : Store) : String :=
   s!"cas={csv (sortNat s.cas)} consumed={csv (sortNat s.consumed)}"
 
 def showResp (r : Response) : String :=
-  s!"st={showCode r.status} ex={r.exitCode} f={csv r.files} d={csv r.dirs} o={showOptD r.stdout} e={showOptD r.stderr} l={csv r.logs} m={r.message}"
+  s!"st={showCode r.status.err} ex={r.exitCode} f={csv r.files} d={csv r.dirs} o={showOptD r.stdout} e={showOptD r.stderr} l={csv r.logs} m={r.message}"
 
 def showEntry (e : ACEntry) : String :=
   s!"{e.action}/{e.exitCode}/{csv e.files}/{csv e.dirs}/{showOptD e.stdout}/{showOptD e.stderr}"
@@ -160,6 +160,16 @@ def showAC (l : List ACEntry) : String :=
 
 def boolOf (s : String) : Option Bool :=
   if s == "1" then some true else if s == "0" then some false else none
+
+/-- `-` unset, `ok` explicit OK, `okm` explicit OK with a message, `<n>` error code. -/
+def parseStatus (s : String) : Option Status :=
+  if s == "-" then some .unset
+  else if s == "ok" then some (.ok false)
+  else if s == "okm" then some (.ok true)
+  else match s.toNat? with
+    | some 0 => none
+    | some c => some (.error c)
+    | none => none
 
 def parseCall (s : String) : Option (String × Option Code) :=
   match s.splitOn ":" with
@@ -191,9 +201,9 @@ def step (st : DState) (ws : List String) : DState × String :=
       (st', s!"r={showCode r.2} adm={adm} {showStore r.1}")
     | _, _, _ => (st, "bad-op")
   | ["inner", stc, ex, fs, ds, so, se, ls] =>
-    match stc.toNat?, ex.toNat?, parseCsv fs, parseCsv ds, parseOptD so, parseOptD se, parseCsv ls with
+    match parseStatus stc, ex.toNat?, parseCsv fs, parseCsv ds, parseOptD so, parseOptD se, parseCsv ls with
     | some stc, some ex, some fs, some ds, some so, some se, some ls =>
-      ({ st with resp := some ⟨codeOf stc, ex, fs, ds, so, se, ls, 0⟩ }, "ok")
+      ({ st with resp := some ⟨stc, ex, fs, ds, so, se, ls, 0⟩ }, "ok")
     | _, _, _, _, _, _, _ => (st, "bad-op")
   | "flush" :: rest =>
     match st.resp, parseObs rest with
